@@ -19,6 +19,8 @@ import EPV.Lemmas.RegexFuns
 import EPV.Lemmas.RegexScanner
 import EPV.Lemmas.RegexTranslate
 import EPV.Lemmas.RegexClassPlain
+import EPV.Lemmas.RegexClassGrammar
+import EPV.Lemmas.RegexClassUnits
 namespace EPV.C12
 open EPV.Regex
 
@@ -100,21 +102,69 @@ theorem subtraction_fails_mixed :
     (c.isub o).contains 98 = true ∧ (c.contains 98 && !o.contains 98) = false := by decide
 
 /-! ### the class scanner (transcribed `parse_character_class` / `_re_char_set.split` /
-`iterparse_character_subset`): kernel-checked witnesses of findings F12s, F12u and agreement on
-ordinary classes.  There is no ∀-theorem about the scanner; it is tied to the code, bugs
-included, by the CLS correspondence only. -/
+`CharacterClass.add`; `iterparse_character_subset` is C13's transcription) -/
 
 /-- PARTIAL.  Full statement (DESIGN: `charclass_denote`): for every class text `src`,
-`denote (parseClass src) = specClass src`.  Proved here for the transcribed scanner on the fragment
-"`[` body `]` with a non-empty body of plain characters" (no backslash, hyphen or bracket, not
-starting with `^`), for every table set, XSD version and flavour: the text is accepted and the class
-contains exactly the characters of the body (XSD [77]-[80]: a group of singleChars denotes their
-union).  Outside this fragment (ranges, escapes, negation, subtraction) the scanner is tied to the
-XSD reading by the CLS correspondence only; F12s/F12u show where it is wrong. -/
+`denote (parseClass src) = specClass src` — false in general (findings F12, F12s, F12u).
+Proved: for every bracket expression `g : GClass` — optional `^`, a group made of *literal runs that
+the XSD group grammar reads* (Spec/CharGroupStrict.lean: characters, ranges `a-b` with `a ≤ b`, a
+hyphen first or last) and *single-character escapes* `\n \r \t \| \. \- \^ \? \* \+ \{ \} \( \) \]`, any depth
+of `-[...]` subtraction — that is well formed (`GClass.WF`: runs are backslash- and bracket-free and
+never adjacent, an escape is not directly preceded by `-`, the run after an escape does not begin with
+`-`, the translator's `--` / XSD-1.0 `x-y-z` checks pass, no leading `^` unless negated) and has no
+forbidden escape, the scanner accepts the text and builds a pure class whose members are exactly the
+grammar's set `g.Den` (union of the parts, complemented under `^`, minus the subtracted class), for
+every table set, XSD version and flavour.  Multi-character / category escapes inside brackets are not
+in this theorem (their algebra is `charclass_denote_partial`). -/
+theorem charclass_scan_grammar_partial (T : MTables) (v10 xp : Bool) (g : GClass) (hwf : g.WF v10)
+    (hfe : forbiddenEscape xp none (91 :: g.render) = false) :
+    ∃ cc, parseClassText T v10 xp (91 :: g.render) = some cc ∧ cc.Pure ∧
+      ∀ x, x < maxCP1 → (cc.contains x = true ↔ g.Den x) := by
+  obtain ⟨cc, h, hp, hc⟩ := parseClassM_grammar T v10 g hwf (g.render.length + 1) []
+    (Nat.le_succ_of_le g.depth_le_render)
+  refine ⟨cc, ?_, hp, hc⟩
+  simp only [List.append_nil] at h
+  simp [parseClassText, hfe, h]
+
+/-- test on literals: `[^a-f\-0-9+-[c\.]]` is a well-formed `GClass` for XSD 1.1 (hypotheses checked by the
+kernel), its text is the expected one -/
+example :
+    let g := GClass.minus true [.lit [97, 45, 102] [.rng 97 103], .tok 45, .lit [48, 45, 57, 43] [.rng 48 58, .one 43]]
+      (.plain false [.lit [99] [.one 99], .tok 46])
+    g.render = [94, 97, 45, 102, 92, 45, 48, 45, 57, 43, 45, 91, 99, 92, 46, 93, 93] ∧
+    forbiddenEscape true none (91 :: g.render) = false := by decide
+
+/-- … and it satisfies the hypothesis `WF` of the theorem (XSD 1.1 checks) -/
+example :
+    (GClass.minus true [.lit [97, 45, 102] [.rng 97 103], .tok 45, .lit [48, 45, 57, 43] [.rng 48 58, .one 43]]
+      (.plain false [.lit [99] [.one 99], .tok 46])).WF false := by
+  refine ⟨⟨by simp, ⟨by simp, ?_, by decide, by simp, trivial, ⟨by decide, by decide, ⟨by simp, ?_, by decide, by simp, trivial, trivial⟩⟩⟩, by simp, by decide⟩,
+    ⟨by simp, ⟨by simp, ?_, by decide, by simp, trivial, ⟨by decide, by decide, trivial⟩⟩, by decide, by decide⟩⟩
+  all_goals (intro c hc; simp only [List.mem_cons, List.not_mem_nil, or_false] at hc; unfold NoBr; rcases hc with rfl | rfl | rfl | rfl <;> decide)
+
+/-- the same theorem on plain-character bodies, in Boolean form -/
 theorem charclass_scan_plain_partial (T : MTables) (v10 xp : Bool) (body : List Ch) (hne : body ≠ [])
     (hp : ∀ c ∈ body, Plain c) (h0 : body.head? ≠ some 94) :
-    ∃ cc, parseClassText T v10 xp (91 :: (body ++ [93])) = some cc ∧ ∀ x, cc.contains x = decide (x ∈ body) :=
-  scanner_plain T v10 xp body hne hp h0
+    ∃ cc, parseClassText T v10 xp (91 :: (body ++ [93])) = some cc ∧ ∀ x, x < maxCP1 → cc.contains x = decide (x ∈ body) := by
+  have h92 : ∀ c ∈ 91 :: (body ++ [93]), c ≠ 92 := by
+    intro c hc
+    simp only [List.mem_cons, List.mem_append, List.not_mem_nil, or_false] at hc
+    rcases hc with rfl | hc | rfl
+    · decide
+    · exact (hp c hc).1
+    · decide
+  obtain ⟨cc, h, _, hc⟩ := charclass_scan_grammar_partial T v10 xp (.plain false [.lit body (body.map EPV.USet.CP.one)])
+    (plain_groupWF v10 body hne hp h0)
+    (by simpa [GClass.render, caret, renderSegs, Seg.text] using forbidden_none xp _ h92 none)
+  refine ⟨cc, by simpa [GClass.render, caret, renderSegs, Seg.text] using h, fun x hx => ?_⟩
+  have hh := hc x hx
+  simp only [GClass.Den, Bool.false_eq_true, if_false, SegsDen, List.mem_cons, List.not_mem_nil, or_false,
+    exists_eq_left, memL_ones] at hh
+  cases hcc : cc.contains x with
+  | true => exact (decide_eq_true (hh.1 hcc)).symm
+  | false =>
+    have : ¬ x ∈ body := fun hx' => by rw [hh.2 hx'] at hcc; cases hcc
+    exact (decide_eq_false this).symm
 
 /-- test on literals: the hypotheses hold for `[ab^ .]` -/
 example : (∀ c ∈ [97, 98, 94, 32, 46], Plain c) ∧ ([97, 98, 94, 32, 46] : List Ch).head? ≠ some 94 := by
@@ -140,28 +190,28 @@ def specOfText (s : List Ch) (x : Nat) : Option Bool :=
 theorem scanner_fails_escaped_backslash :
     let src := [91, 92, 92, 100, 93]
     (parseClassText T0 false true src).map (fun c => (c.contains 100, c.contains 53)) = some (false, true) ∧
-    specOfText src 100 = some true ∧ specOfText src 53 = some false := by decide
+    specOfText src 100 = some true ∧ specOfText src 53 = some false := by decide +kernel
 
 /-- F12s witness `[\$]`: contains the backslash -/
 theorem scanner_fails_escaped_dollar :
     let src := [91, 92, 36, 93]
-    (parseClassText T0 false true src).map (·.contains 92) = some true ∧ specOfText src 92 = some false := by decide
+    (parseClassText T0 false true src).map (·.contains 92) = some true ∧ specOfText src 92 = some false := by decide +kernel
 
 /-- F12s witness `[\n-z]`: read as the three characters newline, `-`, `z` instead of a range -/
 theorem scanner_fails_escape_range_start :
     let src := [91, 92, 110, 45, 122, 93]
     (parseClassText T0 false true src).map (fun c => (c.contains 97, c.contains 122)) = some (false, true) ∧
-    specOfText src 97 = some true := by decide
+    specOfText src 97 = some true := by decide +kernel
 
 /-- F12s witness `[\q]`: accepted (XSD: no such escape) -/
 theorem scanner_accepts_bad_escape :
     let src := [91, 92, 113, 93]
-    (parseClassText T0 false true src).isSome = true ∧ specOfText src 113 = none := by decide
+    (parseClassText T0 false true src).isSome = true ∧ specOfText src 113 = none := by decide +kernel
 
 /-- F12u witness `[\p{IsFoo}]` under XSD 1.0: accepted as "all characters" -/
 theorem scanner_accepts_unknown_block_v10 :
     let src := [91, 92, 112, 123, 73, 115, 70, 111, 111, 125, 93]
-    (parseClassText T0 true true src).map (·.contains 97) = some true ∧ specOfText src 97 = none := by decide
+    (parseClassText T0 true true src).map (·.contains 97) = some true ∧ specOfText src 97 = none := by decide +kernel
 
 /-- test on literals: scanner + algebra agree with the XSD reading on `[a-z-[aeiou]]`, `[^\d\-x]`,
 `[\]a-c-]`, and both reject `[]`, `[a-[b]` and `[z-a]` -/
@@ -174,7 +224,7 @@ example :
         = specOfText [91, 92, 93, 97, 45, 99, 45, 93] x) ∧
     parseClassText T0 false true [91, 93] = none ∧ specOfText [91, 93] 97 = none ∧
     (parseClassText T0 false true [91, 97, 45, 91, 98, 93]).isNone = true ∧ specOfText [91, 97, 45, 91, 98, 93] 97 = none ∧
-    (parseClassText T0 false true [91, 122, 45, 97, 93]).isNone = true ∧ specOfText [91, 122, 45, 97, 93] 97 = none := by decide
+    (parseClassText T0 false true [91, 122, 45, 97, 93]).isNone = true ∧ specOfText [91, 122, 45, 97, 93] 97 = none := by decide +kernel
 
 /-! ## layer 2: the derivative matcher is the language -/
 
@@ -269,6 +319,55 @@ theorem translate_class_plain_ok (Tm : MTables) (T : Tables) (v10 atStart : Bool
     (hne : body ≠ []) (hp : ∀ c ∈ body, Plain c) (h0 : body.head? ≠ some 94) :
     StepOK Tm T v10 atStart nested (91 :: (body ++ 93 :: tail)) :=
   stepOK_class_plain Tm T v10 atStart nested body tail hne hp h0
+
+/-- F12v witness: `\a` (no XSD escape) — the scanner does not raise and hands `\a` to Python; `a}` likewise
+passes with the bare `}`; the grammar rejects both -/
+theorem scanner_accepts_unknown_escape :
+    (translateM T0 (soOf {} false) [92, 97]).isSome = true ∧ (specLex xo [92, 97]).isNone = true ∧
+    (translateM T0 (soOf {} false) [97, 125]).isSome = true ∧ (specLex xo [97, 125]).isNone = true := by decide +kernel
+
+/-- F12w witness: `\w` outside brackets is emitted as Python's own `\w` (fragment `esc 'w'`), not as the
+XSD set; inside brackets it is expanded (`cls`) -/
+theorem scanner_hands_w_to_python :
+    (match translateM T0 (soOf {} false) [92, 119] with | some [.atom (.esc 119)] => true | _ => false) = true ∧
+    (match translateM T0 (soOf {} false) [91, 92, 119, 93] with | some [.atom (.cls _)] => true | _ => false) = true := by
+  decide +kernel
+
+/-- ASCII case variant (all that the F12c witness needs) -/
+def asciiVariant (c : Ch) : Ch := if 65 ≤ c && c ≤ 90 then c + 32 else if 97 ≤ c && c ≤ 122 then c - 32 else c
+
+/-- F12c witness.  Under `re.IGNORECASE` a bracket text matches `x` when `x` *or a case variant of `x`*
+is in the set.  For `[\p{Lu}]` (stand-in table: A-Z) that makes `a` a member, while F&O 5.6.2 leaves
+category escapes untouched by flag `i` (`a` is not a member).  Outside brackets the implementation
+protects `\p{Lu}` with `(?-i:…)`; inside brackets it does not. -/
+theorem icase_bracket_escape_witness :
+    let upper : SetE := .ranges [(65, 91)]
+    let cc := evalClass (.plain false [⟨false, upper⟩])
+    (cc.contains 97 || cc.contains (asciiVariant 97)) = true ∧ specClass (.plain false [⟨false, upper⟩]) 97 = false := by
+  decide
+
+/-- the class side condition of `translate_eq_spec_partial` is proved for every bracket expression of the
+XSD group grammar given by units — plain characters, ordered ranges `a-b` of plain characters and
+single-character escapes (an escape not directly after `\-`), with `^` and any depth of `-[...]`
+subtraction — that passes the translator's hyphen checks: the transcribed class scanner and the grammar
+`pClass` of the specification accept the same text, leave the same rest, and denote the same set
+(`GClass.Den`).  Extends `translate_class_plain_ok`. -/
+theorem translate_class_grammar_ok (Tm : MTables) (T : Tables) (v10 atStart : Bool) (nested : Nat) (uc : UClass)
+    (hok : uc.OK) (hchk : uc.checks v10 = true) (tail : List Ch) :
+    StepOK Tm T v10 atStart nested (91 :: (uc.toG.render ++ tail)) :=
+  stepOK_class_uclass Tm T v10 atStart nested uc hok hchk tail
+
+/-- test on literals: `[^a-fx\.0-9-[c\n]]` given by units: text, hyphen checks (XSD 1.0 and 1.1) -/
+example :
+    let uc := UClass.minus true [.lit [.rng 97 102, .chr 120], .tok 46, .lit [.rng 48 57]] (.plain false [.lit [.chr 99], .tok 110])
+    uc.toG.render = [94, 97, 45, 102, 120, 92, 46, 48, 45, 57, 45, 91, 99, 92, 110, 93, 93] ∧
+    uc.checks true = true ∧ uc.checks false = true := by decide
+
+/-- … and it satisfies `UClass.OK` -/
+example : (UClass.minus true [.lit [.rng 97 102, .chr 120], .tok 46, .lit [.rng 48 57]] (.plain false [.lit [.chr 99], .tok 110])).OK := by
+  refine ⟨by simp, ⟨by simp, ?_, trivial, ⟨by decide, by simp, ⟨by simp, ?_, trivial, trivial⟩⟩⟩, by simp,
+    ⟨by simp, ⟨by simp, ?_, trivial, ⟨by decide, by simp, trivial⟩⟩, by decide⟩⟩
+  all_goals (intro u hu; simp only [List.mem_cons, List.not_mem_nil, or_false] at hu; rcases hu with rfl | rfl <;> simp [LUnit.OK, Plain])
 
 /-- the assumptions on Python's `re` are consistent: a reading of the fragments satisfying `PySem`
 exists for every table set and flag set (it is the one the driver executes) -/
